@@ -519,7 +519,11 @@ int32_t jls_core_rd_chunk_end(struct jls_core_s * self) {
                 }
             }
         }
-        end_pos = pos + sizeof(struct jls_chunk_header_s) - sizeof(uint64_t);
+        if (0 == pos) {
+            break;  // whole file scanned
+        }
+        // overlap by a full header: the candidate at pos (never tested above, i > 0) is the top candidate of the next window
+        end_pos = pos + sizeof(struct jls_chunk_header_s);
     }
     return JLS_ERROR_NOT_FOUND;
 }
